@@ -981,6 +981,58 @@ func (r *Result) recordLiteral(mk *Mock, f *Func, fl *flow, ap event, me tmpl.Me
 	lt := u.Info.TypeOf(lit)
 	r.add("K-RECORD/literal", "method:element-type", nodePos(lit), sl != nil && lt != nil && types.Identical(sl.Elem(), lt), "%s: the record literal's type differs from the element type of the record slice", name)
 	ls, _ := lt.Underlying().(*types.Struct)
+	// the other way to a complete record: the zero record is appended and the method fills the slot it has
+	// just appended through a pointer to it — every field exactly once, the i-th from the i-th parameter
+	// (where that happens relative to the lock is K-LOCK/access-locked's question)
+	if ls != nil && len(lit.Elts) == 0 && ls.NumFields() == len(me.Params) && len(me.Params) > 0 && len(fl.elemAlias) > 0 {
+		assigned := map[string][]*types.Var{}
+		other := false
+		ast.Inspect(f.Decl.Body, func(n ast.Node) bool {
+			s, ok := n.(*ast.AssignStmt)
+			if !ok {
+				return true
+			}
+			for i, l := range s.Lhs {
+				se, ok := ast.Unparen(l).(*ast.SelectorExpr)
+				if !ok {
+					continue
+				}
+				aid, ok := ast.Unparen(se.X).(*ast.Ident)
+				if !ok {
+					continue
+				}
+				if _, isAlias := fl.elemAlias[u.Info.ObjectOf(aid)]; !isAlias {
+					continue
+				}
+				if s.Tok != token.ASSIGN || len(s.Lhs) != len(s.Rhs) {
+					other = true
+					continue
+				}
+				val, _ := ast.Unparen(s.Rhs[i]).(*ast.Ident)
+				if val == nil {
+					other = true
+					continue
+				}
+				v, _ := u.Info.ObjectOf(val).(*types.Var)
+				assigned[se.Sel.Name] = append(assigned[se.Sel.Name], v)
+			}
+			return true
+		})
+		filled := !other && len(assigned) == ls.NumFields()
+		for i := 0; filled && i < ls.NumFields(); i++ {
+			vs := assigned[ls.Field(i).Name()]
+			if len(vs) != 1 || vs[0] == nil {
+				filled = false
+				break
+			}
+			idx, isParam := fl.params[vs[0]]
+			filled = isParam && idx == i && ls.Field(i).Name() == tmpl.OpExported+me.Params[i].Name && types.Identical(ls.Field(i).Type(), vs[0].Type())
+		}
+		if filled {
+			r.add("K-RECORD/literal", "method:fields", nodePos(lit), true, "")
+			return
+		}
+	}
 	okFields := ls != nil && ls.NumFields() == len(me.Params) && len(lit.Elts) == len(me.Params)
 	for i := 0; okFields && i < len(lit.Elts); i++ {
 		kv, isKV := lit.Elts[i].(*ast.KeyValueExpr)
